@@ -47,8 +47,12 @@ def scenario_writes(rng, module, cfg, hostile=False):
         kinds += ["garbage", "garbage", "truncated"]
     kind = rng.choice(kinds)
     msg, _valid = _message(rng, module, sd, params, kind)
-    ops = [{"op": "reset"}, {"op": "alloc", "arena": "tx", "hex": msg.hex(), "base": rng.choice([0, 0, 1, 3, 5])}]
+    base = rng.choice([0, 0, 1, 3, 5, 8])
+    ops = [{"op": "reset"}, {"op": "alloc", "arena": "tx", "hex": msg.hex(), "base": base}]
     ob = {"op": "observe", "struct": st, "params": params, "arena": "tx", "off": 0, "len": len(msg)}
+    al = bool(cfg.get("aligned") and base % cfg["aligned"] == 0 and rng.random() < 0.7)
+    if al:
+        ob["aligned"] = True
     ops.append(dict(ob))
     paths = write_paths(module, st)
     if not paths:
@@ -63,6 +67,8 @@ def scenario_writes(rng, module, cfg, hostile=False):
         vals = scen.write_values(rng, module, env, path)
         v = rng.choice(vals)
         op = {"op": "write", "struct": st, "params": params, "arena": "tx", "off": 0, "len": len(msg), "path": path, "value": v}
+        if al:
+            op["aligned"] = True
         ops.append(op)
         script.add_op(op, (0, len(ops)))
         if rng.random() < 0.4:
